@@ -190,7 +190,6 @@ func (a *Allocation) AddChannelBind(chanBind *ChannelBind, channelLifetime, perm
 	// Lookup, refresh and insert are one critical section: the expiry of a
 	// binding decides under the same lock.
 	a.channelBindingsLock.Lock()
-	defer a.channelBindingsLock.Unlock()
 
 	// Check that this channel id isn't bound to another transport address, and
 	// that this transport address isn't bound to another channel number.
@@ -206,37 +205,51 @@ func (a *Allocation) AddChannelBind(chanBind *ChannelBind, channelLifetime, perm
 
 	// Peer already bound to a different channel number.
 	if channelByAddr != nil && channelByAddr.Number != chanBind.Number {
+		a.channelBindingsLock.Unlock()
+
 		return ErrSamePeerDifferentChannel
 	}
 
 	// Channel number already bound to a different peer.
 	if channelByNumber != nil && !ipnet.AddrEqual(channelByNumber.Peer, chanBind.Peer) {
+		a.channelBindingsLock.Unlock()
+
 		return ErrSameChannelDifferentPeer
 	}
 
-	// Add or refresh this channel.
-	if channelByNumber == nil {
-		if a.isClosed() {
-			return ErrAllocationClosed
-		}
-
-		chanBind.allocation = a
-		a.channelBindings = append(a.channelBindings, chanBind)
-		chanBind.start(channelLifetime)
-
-		// Channel binds also refresh permissions.
-		a.AddPermission(NewPermission(chanBind.Peer, a.log, permissionLifetime))
-
-		if a.eventHandler.OnChannelCreated != nil {
-			a.eventHandler.OnChannelCreated(a.fiveTuple.SrcAddr, a.fiveTuple.DstAddr,
-				a.fiveTuple.Protocol.String(), a.userID, a.realm,
-				a.RelayAddr, chanBind.Peer, uint16(chanBind.Number))
-		}
-	} else {
+	// Refresh this channel.
+	if channelByNumber != nil {
 		channelByNumber.refresh(channelLifetime)
+		peer := channelByNumber.Peer
+		a.channelBindingsLock.Unlock()
 
-		// Channel binds also refresh permissions.
-		a.AddPermission(NewPermission(channelByNumber.Peer, a.log, permissionLifetime))
+		// Channel binds also refresh permissions. The binding is done with:
+		// the permission (and the OnPermissionCreated callback, when it had
+		// run out) needs no hold on the bindings, which the relay reads.
+		a.AddPermission(NewPermission(peer, a.log, permissionLifetime))
+
+		return nil
+	}
+
+	// Add this channel. (As before cfa7daa, the events of a new binding are
+	// reported under the lock.)
+	defer a.channelBindingsLock.Unlock()
+
+	if a.isClosed() {
+		return ErrAllocationClosed
+	}
+
+	chanBind.allocation = a
+	a.channelBindings = append(a.channelBindings, chanBind)
+	chanBind.start(channelLifetime)
+
+	// Channel binds also refresh permissions.
+	a.AddPermission(NewPermission(chanBind.Peer, a.log, permissionLifetime))
+
+	if a.eventHandler.OnChannelCreated != nil {
+		a.eventHandler.OnChannelCreated(a.fiveTuple.SrcAddr, a.fiveTuple.DstAddr,
+			a.fiveTuple.Protocol.String(), a.userID, a.realm,
+			a.RelayAddr, chanBind.Peer, uint16(chanBind.Number))
 	}
 
 	return nil
